@@ -2,7 +2,7 @@ package main
 
 // implrun simrun: "<modules> <requests>"
 //   modules  = name=hex,name=hex,...   (the first one is the main VCL; the others are include targets)
-//   requests = METHOD=hexurl;METHOD=hexurl;...   served one after the other by ONE interpreter
+//   requests = METHOD=hexurl[=hex of "Name: value" header lines];...   served one after the other by ONE interpreter
 // Each request goes through Interpreter.ServeHTTP (ProcessInit, vcl_recv ... the whole request flow).
 // reply: one word per request:  <http status>:<restarts>:<error 0|1>:<client status>:<number of log lines>
 // A Go panic is reported by implrun as "crash ..."; a fatal error (stack overflow) kills the worker.
@@ -94,8 +94,14 @@ func simRun(args string) string {
 	var out []string
 	for _, rq := range strings.Split(f[1], ";") {
 		method, hx, _ := strings.Cut(rq, "=")
+		hx, hdrs, _ := strings.Cut(hx, "=") // optional third part: hex of "Name: value" lines
 		rec := httptest.NewRecorder()
 		req := httptest.NewRequest(method, "http://localhost"+unhex(hx), nil)
+		for _, line := range strings.Split(unhex(hdrs), "\n") {
+			if k, v, ok := strings.Cut(line, ":"); ok {
+				req.Header.Set(strings.TrimSpace(k), strings.TrimSpace(v))
+			}
+		}
 		ip.ServeHTTP(rec, req)
 		var body struct {
 			Restarts int           `json:"restarts"`
